@@ -69,7 +69,7 @@ def cases(draw, depth):
     d = draw(st.sampled_from(sqlcore.dialect_names()))
     other = draw(st.sampled_from(sqlcore.dialect_names()))
     level = draw(st.sampled_from(LEVELS))
-    case = {"kind": kind, "dialect": d, "other": other, "level": level, "count_work": draw(st.integers(0, 2)) == 0}
+    case = {"kind": kind, "dialect": d, "other": other, "level": level, "count_work": True}
     if kind in ("V", "M", "S"):
         case["sql"] = draw(sqlcore.statement(depth))["sql"]
         if kind == "M":
@@ -158,9 +158,16 @@ def run_one(text, d, other, level, count_work):
     info = {"raised": False, "incomplete": 0, "complete": 0, "calls": 0, "valid": False}
     dd = d or None
     # an input is VALID in d when a RAISE-level parse accepts it; only then is everything downstream strict
+    pre = _Counter(A * max(len(text), 1) ** 2 + B)
     try:
-        sqlglot.parse(text, read=dd, error_level=ErrorLevel.RAISE)
+        sys.setprofile(pre)
+        try:
+            sqlglot.parse(text, read=dd, error_level=ErrorLevel.RAISE)
+        finally:
+            sys.setprofile(None)
         info["valid"] = True
+    except WorkExceeded:
+        return [("work-bound-exceeded|parse", f"{d or 'base'} RAISE: more than {pre.limit} calls for {len(text)} characters: {text[:300]!r}")], info
     except BaseException:
         info["valid"] = False
     n = max(len(text), 1)
